@@ -15,44 +15,43 @@ Proof. repeat split; reflexivity. Qed.
 Lemma archc_lits : archc A1.dash = true /\ forallb archc A1.gnu = true /\ forallb archc A1.linux = true /\ forallb archc A1.any = true.
 Proof. repeat split; reflexivity. Qed.
 
-Lemma good_wf p : good p -> blank_arch_possi p = false -> wf_any p.
+Lemma arch_ok_not_zero w : arch_ok w = true -> ~ A1.zero_arch (parse_arch w).
+Proof. apply A1.arch_ok_not_zero. Qed.
+
+(* what the parser produced is well formed: since names with an empty component are refused, every architecture in
+   the value came from a name that renders back to itself *)
+Lemma good_wf p : good p -> wf_any p.
 Proof.
-  intros [[I Hne]|W] NB; [left|right; exact W].
-  destruct I as [A B C D (a&Ea&(S1&S2)) G H]. unfold blank_arch_possi in NB. apply orb_false_iff in NB as [NB1 NB2].
+  intros [[I Hne]|W]; [left|right; exact W].
+  destruct I as [A B C D (a&Ea&(S1&S2)) G H].
   constructor; auto.
-  - destruct (p_arch p) as [q|]; [|exact I]. destruct D as (w&Hw&->).
-    destruct mac_lits as (M1&M2&M3&M4). split.
+  - destruct (p_arch p) as [q|]; [|exact I]. destruct D as (w&Hw&Ok&->).
+    destruct mac_lits as (M1&M2&M3&M4). destruct (A1.arch_roundtrip_ok w Ok) as [O R]. split; [|split].
     + apply (arch_src_chars mac M1 M2 M3 M4 w Hw).
-    + apply A1.arch_roundtrip. now apply zero_arch_false.
-  - exists a. split; [exact Ea|]. split; [exact S1|]. rewrite Ea in NB2.
-    rewrite Forall_forall in *. intros e He. destruct (S2 e He) as (w&Hw&->).
-    assert (NZ : zero_arch (parse_arch w) = false).
-    { destruct (zero_arch (parse_arch w)) eqn:Z; [|reflexivity].
-      assert (existsb zero_arch (a_list a) = true) by (apply existsb_exists; exists (parse_arch w); auto). congruence. }
-    destruct archc_lits as (M1&M2&M3&M4). constructor.
+    + exact R.
+    + exact O.
+  - exists a. split; [exact Ea|]. split; [exact S1|].
+    rewrite Forall_forall in *. intros e He. destruct (S2 e He) as (w&Hw&Ok&->).
+    destruct archc_lits as (M1&M2&M3&M4). destruct (A1.arch_roundtrip_ok w Ok) as [O R]. constructor.
     + apply (arch_src_chars archc M1 M2 M3 M4 w Hw).
-    + intros _ E. apply arch_string_nonempty in E. apply (zero_arch_false _ NZ). exact E.
-    + apply A1.arch_roundtrip. now apply zero_arch_false.
+    + intros _ E. apply arch_string_nonempty in E. now apply (arch_ok_not_zero w Ok).
+    + exact R.
+    + exact O.
 Qed.
 
-Lemma good_dep_wf d : Forall good_rel d -> blank_arch d = false -> wf_dep d.
+Lemma good_dep_wf d : Forall good_rel d -> wf_dep d.
 Proof.
-  intros G NB. unfold wf_dep, wf_rel. rewrite Forall_forall in *. intros r Hr. destruct (G r Hr) as [Hne Gr].
-  split; [exact Hne|]. rewrite Forall_forall in *. intros p Hp. apply good_wf; [now apply Gr|].
-  destruct (blank_arch_possi p) eqn:B; [|reflexivity].
-  assert (blank_arch d = true).
-  { unfold blank_arch. apply existsb_exists. exists r. split; [exact Hr|]. apply existsb_exists. exists p. auto. }
-  congruence.
+  intros G. unfold wf_dep, wf_rel. rewrite Forall_forall in *. intros r Hr. destruct (G r Hr) as [Hne Gr].
+  split; [exact Hne|]. rewrite Forall_forall in *. intros p Hp. apply good_wf. now apply Gr.
 Qed.
 
-(* C05: for every string the dependency parser accepts, the rendered form is accepted and parses to the
-   same value - except when it contains the architecture "--" (the triple ("","","")) *)
-Theorem C05_dep_roundtrip x d : parse x = Ok d -> blank_arch d = false -> parse (dep_string d) = Ok d.
-Proof. intros P NB. apply C05_partB. apply good_dep_wf; [eapply parse_good; eauto|exact NB]. Qed.
+(* C05: for EVERY string the dependency parser accepts, the rendered form is accepted and parses to the same value *)
+Theorem C05_dep_roundtrip x d : parse x = Ok d -> parse (dep_string d) = Ok d.
+Proof. intros P. apply C05_partB. apply good_dep_wf. eapply parse_good; eauto. Qed.
 
 (* ... so rendering reaches a fixpoint in one step *)
-Corollary C05_fixpoint x d : parse x = Ok d -> blank_arch d = false ->
+Corollary C05_fixpoint x d : parse x = Ok d ->
   forall d2, parse (dep_string d) = Ok d2 -> dep_string d2 = dep_string d.
-Proof. intros P NB d2 E. rewrite (C05_dep_roundtrip x d P NB) in E. now inversion E. Qed.
+Proof. intros P d2 E. rewrite (C05_dep_roundtrip x d P) in E. now inversion E. Qed.
 
 Print Assumptions C05_dep_roundtrip.
